@@ -1,8 +1,9 @@
 (* C13: evaluation only ever APPENDS to the program's output: the text printed so far is never
    rewritten.  This is what lets the transcript of a session be cut into the pieces printed by
-   the individual forms (AV.Mini.Session.delta).                                             *)
+   the individual forms (Model.printed_between).                                             *)
 Require Import List String Bool Arith Lia ZArith.
-Require Import AV.Mini.Syntax AV.Mini.Types AV.Mini.Eval AV.Mini.Session.
+Require Import AV.Mini.Syntax AV.Mini.Types AV.Mini.Eval.
+Require Import AV.Session.Model.
 Import ListNotations.
 
 (* s' has the output of s plus possibly more (chunks are consed on, most recent first) *)
@@ -124,7 +125,7 @@ Section Growth.
       + destruct vs; simpl; gr.
   Qed.
 
-  Lemma step_item_ext : forall fuel s it s', step_item F fuel s it = Some s' -> ext s s'.
+  Lemma form_step_ext : forall fuel s it s', form_step F fuel s it = Some s' -> ext s s'.
   Proof.
     intros fuel s it s' H. destruct (grows_all fuel) as (He & _ & _ & _ & _ & Hs & _ & _ & _).
     destruct it as [t e | t e | fd | st]; simpl in H.
@@ -159,9 +160,9 @@ Proof.
 Qed.
 
 (* what was printed between two states, glued to what was printed before, is what is printed now *)
-Lemma output_of_delta : forall s s', ext s s' -> output_of s' = (output_of s ++ delta s s')%string.
+Lemma output_of_printed : forall s s', ext s s' -> output_of s' = (output_of s ++ printed_between s s')%string.
 Proof.
-  intros s s' [l Hl]. unfold output_of, delta. rewrite Hl. rewrite app_length.
+  intros s s' [l Hl]. unfold output_of, printed_between. rewrite Hl. rewrite app_length.
   replace (List.length l + List.length (so s) - List.length (so s)) with (List.length l) by lia.
   rewrite firstn_app. rewrite Nat.sub_diag. simpl firstn at 2. rewrite app_nil_r. rewrite firstn_all.
   rewrite rev_app_distr. apply concat_app.
